@@ -563,6 +563,55 @@ func runC17(r *core.Run) {
 			return core.Outcome{Class: c.Layout, Nontrivial: len(a0) > 0 && len(b0) > 0, Evals: 3}
 		})
 
+	// The sequences of one call are OVERLAPPING windows of one buffer (tiles of a genome, a read and its
+	// trimmed form): same start and different ends, same end, nested, identical, crossing. They are only
+	// read, so sharing memory must make no difference to what is sketched.
+	type c17Win struct {
+		Buf            core.S `json:"buffer"`
+		I1, J1, I2, J2 int
+		N, K           int
+	}
+	core.Clause(r, "overlapping-windows", core.Opts{Rule: "Sequences(n,k, buf[i1:j1], buf[i2:j2]) and the same two by Add, for EVERY ordered pair of windows (empty, identical, nested, same start, same end, crossing, disjoint) of 3 buffers of 9-10 bases x (n,k) in {(4,2),(50,3)}: the sketch equals the sketch of separately allocated copies, the buffer is unchanged; non-trivial = both windows non-empty and overlapping"},
+		func(emit func(c17Win) bool) {
+			for _, b := range []string{"ACGTTGCAAC", "GATTACAGG", "acgtNACGTT"} {
+				for i1 := 0; i1 <= len(b); i1++ {
+					for j1 := i1; j1 <= len(b); j1++ {
+						for i2 := 0; i2 <= len(b); i2++ {
+							for j2 := i2; j2 <= len(b); j2++ {
+								for _, nk := range [][2]int{{4, 2}, {50, 3}} {
+									if !emit(c17Win{core.S(b), i1, j1, i2, j2, nk[0], nk[1]}) {
+										return
+									}
+								}
+							}
+						}
+					}
+				}
+			}
+		},
+		func(c c17Win) core.Outcome {
+			buf := bytes.Clone(c.Buf.B())
+			w1, w2 := buf[c.I1:c.J1], buf[c.I2:c.J2]
+			want := ref.BottomN(ref.CanonicalKmerHashes(c.K, mash.Seed, bytes.Clone(w1), bytes.Clone(w2)), c.N)
+			var got, got2 []uint64
+			if p := catch(func() {
+				got = slices.Clone(mash.Sequences(c.N, c.K, w1, w2).View())
+				mh := mash.Sequences(c.N, c.K)
+				mash.Add(mh, c.K, w1, w2)
+				got2 = slices.Clone(mh.View())
+			}); p != "" {
+				return core.Failf("Sequences(%d,%d) on the windows [%d:%d] and [%d:%d] of %q: panic: %s", c.N, c.K, c.I1, c.J1, c.I2, c.J2, c.Buf, p)
+			}
+			if !bytes.Equal(buf, c.Buf.B()) {
+				return core.Failf("Sequences/Add on windows of %q changed the buffer to %q", c.Buf, buf)
+			}
+			if !slices.Equal(got, want) || !slices.Equal(got2, want) {
+				return core.Failf("Sequences(%d,%d, buf[%d:%d], buf[%d:%d]) on buf = %q gives %d values (one Add of both: %d), separately allocated copies of %q and %q give %d", c.N, c.K, c.I1, c.J1, c.I2, c.J2, c.Buf, len(got), len(got2), w1, w2, len(want))
+			}
+			overlap := c.J1 > c.I1 && c.J2 > c.I2 && c.I1 < c.J2 && c.I2 < c.J1
+			return core.Outcome{Class: fmt.Sprint("overlap=", overlap), Nontrivial: overlap, Evals: 2}
+		})
+
 	// Large k: two k-mers that differ in ONE base, at every position of the k-mer. An implementation that
 	// identifies a k-mer by a packed word, a prefix, a suffix or a rolling value loses some position once k
 	// exceeds what the word holds (k > 32 for 2 bits per base in 64 bits, k > 16 in 32 bits).
